@@ -35,7 +35,7 @@ func genC28(r *Rand, tier string) Case {
 	n := 1 + r.Intn(4)
 	w.Loops = make([]c39W, n)
 	for i := 0; i < n; i++ {
-		if r.Intn(3) == 0 {
+		if r.Intn(2) == 0 {
 			// asynchronous cancellation (break/continue/return, also out of loops that feed pipelines) racing
 			// with commands that are just starting: the processes must still all be released
 			_, lw := genC39Once(r, tier, 12)
